@@ -15,6 +15,9 @@ import os as _os, time as _time
 EVAL_BUDGET_S = int(_os.environ.get("NX_EVAL_BUDGET", "90"))
 
 
+DISCR_DOM = {}      # ('discr', value term) -> rangeset of the discriminant values of the value's enum type
+
+
 class Undecided(Exception):
     pass
 
@@ -178,6 +181,9 @@ def mk_cases(scrut, ty, arms):
         arms = tuple((rs_inter(rs_norm(rs), dom), t) for rs, t in arms)
         scrut, ty = s2, t2
     scrut, arms = _unshift(scrut, ty, arms)
+    if isinstance(scrut, tuple) and scrut and scrut[0] == "discr" and scrut in DISCR_DOM:
+        dom = DISCR_DOM[scrut]          # an enum's discriminant only takes its variants' values
+        arms = tuple((rs_inter(rs_norm(rs), dom), t) for rs, t in arms)
     # flatten nested cases on the same scrutinee
     flat = []
     for rs, t in arms:
@@ -726,6 +732,10 @@ class Evaluator:
         if r == "discr":
             v = self.read_place(fn, env, s["pl"])
             d = self.discriminant(v)
+            if d[0] == "discr" and d not in DISCR_DOM:
+                dom = self._variant_count(fn, s["pl"])
+                if dom:
+                    DISCR_DOM[d] = dom
             if v[0] in ("cases", "ite") and d[0] in ("cases", "ite"):
                 self._discr_src[d] = v
             return d
@@ -767,6 +777,32 @@ class Evaluator:
         if v[0] == "updv":
             return self.discriminant(v[1])
         return ("discr", v)
+
+    def _variant_count(self, fn, pl):
+        """number of variants of the enum stored in a place (from its declared type), or None"""
+        ty = None
+        for e in reversed(pl["p"]):
+            if isinstance(e, dict) and "ty" in e and isinstance(e["ty"], str):
+                ty = e["ty"]
+                break
+            if e == "*" or (isinstance(e, dict) and ("down" in e)):
+                continue
+            break
+        if ty is None and not [e for e in pl["p"] if e != "*"]:
+            ty = fn.locals[pl["l"]]["ty"].get("s")
+        if not ty:
+            return None
+        ty = ty.lstrip("&").replace("mut ", "").strip()
+        path = ty.split("<")[0]
+        if path in STD_ENUMS:
+            return ((0, len(STD_ENUMS[path]) - 1),)
+        a = self.prog.adts.get(path)
+        if a and a.get("variants") and str(a.get("kind", "Enum")).lower().startswith("enum"):
+            try:
+                return rs_norm(tuple((int(v["discr"]), int(v["discr"])) for v in a["variants"]))
+            except (KeyError, TypeError, ValueError):
+                return None
+        return None
 
     def variant_of_discr(self, base, val):
         """name of the variant of base's enum type with discriminant val (for path refinement)"""
@@ -1201,6 +1237,8 @@ class Evaluator:
             arms.append((((v, v),), self._run(fn, tgt, env2, visits, depth, until)))
             taken.append((v, v))
         rest = rs_compl(tuple(taken), ty)
+        if d[0] == "discr" and d in DISCR_DOM:
+            rest = rs_inter(rest, DISCR_DOM[d])      # an enum's discriminant only takes its variants' values
         if d[0] == "discr":
             # only the enum's other variants are possible
             other = self._run(fn, t["otherwise"], dict(env), visits, depth, until)
@@ -1383,6 +1421,7 @@ def opt_match(o, on_some, on_none):
     if o[0] in ("panic", "unreachable"):
         return o
     d = ("discr", o)
+    DISCR_DOM.setdefault(d, ((0, 1),))
     return mk_cases(d, "isize", ((((1, 1),), on_some(("vfld", o, "Some", "0"))), (rs_compl(((1, 1),), "isize"), on_none())))
 
 
@@ -1394,6 +1433,7 @@ def res_match(r, on_ok, on_err):
     if r[0] in ("panic", "unreachable"):
         return r
     d = ("discr", r)
+    DISCR_DOM.setdefault(d, ((0, 1),))
     return mk_cases(d, "isize", ((((0, 0),), on_ok(("vfld", r, "Ok", "0"))), (rs_compl(((0, 0),), "isize"), on_err(("vfld", r, "Err", "0")))))
 
 
